@@ -308,6 +308,30 @@ func c14Eviction(p *Prog, r *Report) {
 			}
 		}
 	}
+	// renewing a tracked key always re-arms its deadline: on the key-present edge every path to a return passes
+	// the priority update of that entry's heap item (a shortcut such as "same value, nothing to do" leaves the old
+	// deadline: a busy source expires in mid-traffic and comes back with a fresh state)
+	{
+		reheap := NewEvents(p, func(in ssa.Instruction) bool {
+			return isStdCall(in, "container/heap", "Fix") || isStdCall(in, "container/heap", "Push")
+		})
+		nT := 0
+		for _, t := range BoolTests(set, func(v ssa.Value) bool {
+			ex, ok := v.(*ssa.Extract)
+			if !ok || ex.Index != 1 {
+				return false
+			}
+			lk, ok := ex.Tuple.(*ssa.Lookup)
+			return ok && isFieldLoad(lk.X, tm, ttlElements(tm)) && stripConv(lk.Index) == ssa.Value(set.Params[1])
+		}) {
+			nT++
+			ret := ReturnReachableAvoiding(set, t.If, reheap.Is, func(e Edge) bool { return !(e.B == t.False.B && e.K == t.False.K) })
+			r.Paths++
+			r.Check(ret == nil, "C14.R3", "collections.TTLMap."+set.Name()+": renewing a tracked key re-arms its deadline", p.InstrPos(t.If), "every path of the key-present edge re-heapifies the entry with the new deadline",
+				"on the key-present edge a return is reachable without updating the entry's place in the expiry heap"+posOf(p, ret)+": the deadline of a source that keeps sending is not renewed, it is forgotten in mid-traffic")
+		}
+		r.Floor("C14.R3", nT, 1, "key look-ups in the insertion routine")
+	}
 	nSites := 0
 	for _, c := range Calls(set) {
 		call, ok := c.(*ssa.Call)
